@@ -567,37 +567,53 @@ def report_e2e(ck, prop, e2e, reported):
 
 
 # ---------------------------------------------------------------- machinery shared with C40
-HARNESS_SOURCES = ["C39/harness.cxx", vlib.REPO + "/src/Material/BoundsCheck.cxx",
-                   vlib.REPO + "/src/Material/MaterialException.cxx", vlib.REPO + "/src/Exception/TFELException.cxx",
-                   vlib.REPO + "/src/Utilities/GenTypeCastError.cxx"]
+HARNESS_SOURCES = [vlib.REPO + "/src/Material/BoundsCheck.cxx", vlib.REPO + "/src/Material/MaterialException.cxx",
+                   vlib.REPO + "/src/Exception/TFELException.cxx", vlib.REPO + "/src/Utilities/GenTypeCastError.cxx"]
+# sanitizers without -g: debug info of the 32 instantiations quadruples the compile time
+HARNESS_FLAGS = ["-fsanitize=address,undefined", "-fno-sanitize-recover=all", "-Wno-attributes"]
 
 
-def build(ck):
-    # sanitizers without -g: debug info of the 32 instantiations quadruples the compile time
-    harness = ck.cxx("c39h", HARNESS_SOURCES, includes=[vlib.REPO + "/mfront/include"],
-                     flags=["-fsanitize=address,undefined", "-fno-sanitize-recover=all", "-Wno-attributes"])
-    driver = ck.lean_exe("c39driver", "TfelVerif/C39/Driver.lean")
-    return harness, driver
+def build_harness(ck):
+    """the 2 x 16 instantiations of integrate<Mock> and the main program are three objects built in parallel"""
+    from concurrent.futures import ThreadPoolExecutor
+    inc = [vlib.REPO + "/mfront/include"]
+    with ThreadPoolExecutor(max_workers=3) as ex:
+        futs = [ex.submit(ck.cxx, "c39h_part%d.o" % k, ["C39/harness.cxx"], includes=inc,
+                          flags=HARNESS_FLAGS + ["-c", "-DC39_PART=%d" % k]) for k in (0, 1)]
+        futs.append(ex.submit(ck.cxx, "c39h_main.o", ["C39/harness.cxx"], includes=inc, flags=HARNESS_FLAGS + ["-c"]))
+        objs = [f.result() for f in futs]
+    return ck.cxx("c39h", objs + HARNESS_SOURCES, includes=inc, flags=HARNESS_FLAGS)
+
+
+def build(ck, props):
+    """harness (current tree) compiled while lake builds the driver and re-checks the theorems"""
+    from concurrent.futures import ThreadPoolExecutor
+    with ThreadPoolExecutor(max_workers=1) as ex:
+        fut = ex.submit(build_harness, ck)
+        driver = ck.lean_exe("c39driver", "TfelVerif/C39/Driver.lean")
+        res = ck.lean(props, props)
+        harness = fut.result()
+    return harness, driver, res
 
 
 def all_requests(ck):
     rng = random.Random(ck.seed)
-    reqs = corpus() + systematic(ck.quick) + rand_requests(rng, 20000 if ck.quick else 400000)
+    reqs = corpus() + systematic(ck.quick) + rand_requests(rng, 12000 if ck.quick else 400000)
     return reqs, rng
 
 
 def run_both(ck, harness, driver, text):
     """returns (impl answers, {variant: model answers}) ; a crash of the harness is a violation"""
-    pi = ck.run([harness], input=text, timeout=1800)
+    from concurrent.futures import ThreadPoolExecutor
+    with ThreadPoolExecutor(max_workers=5) as ex:
+        fi = ex.submit(ck.run, [harness], input=text, timeout=1800)
+        fm = {v: ex.submit(ck.run, [driver, v[0], v[1]], input=text, timeout=1800) for v in VARIANTS}
+        pi = fi.result()
+        models = {v: fm[v].result().stdout.splitlines() for v in VARIANTS}
     if pi.returncode != 0:
         ck.violation("harness-crash", "the implementation harness aborted (sanitizer report or crash)",
                      {"stderr": pi.stderr[-3000:], "answers_before_crash": len(pi.stdout.splitlines())}, False)
-    impl = pi.stdout.splitlines()
-    models = {}
-    for v in VARIANTS:
-        pm = ck.run([driver, v[0], v[1]], input=text, timeout=1800)
-        models[v] = pm.stdout.splitlines()
-    return impl, models
+    return pi.stdout.splitlines(), models
 
 
 def detect_variant(impl, models, n):
@@ -620,8 +636,7 @@ def ev_class(sc, a):
 
 
 def run(ck):
-    harness, driver = build(ck)
-    res = ck.lean(PROPS, PROPS)
+    harness, driver, res = build(ck, PROPS)
     ck.lean_violations(res)
     wrapper_ok = check_wrapper(ck)
     reqs, rng = all_requests(ck)
